@@ -6,6 +6,7 @@ import MlModel.Lemmas.Piter2Data
 import MlModel.Lemmas.Piter2DataEq
 import MlModel.Lemmas.Piter2Incl
 import MlModel.Lemmas.Piter2Multiset
+import MlModel.Lemmas.Piter2Fail
 /-!
 # C13, the two-level composition `piter(iterator_fn, input_iterators=[i_1 … i_n], max_parallism=P)`
 
@@ -81,8 +82,12 @@ NOT proved (full statements, kept visible):
   iterOutcome = some (.stop rets) ∧ rets ~ gens` (generator `iterator_fn`) `/ rets = (replicate P Q1.returned).flatten
   ∧ Q1.returned ~ inputs.flatMap (ret :: more)` (pass-through: every second-level task forwards
   `StopIteration(*input_queue.returned)`, so every input return value arrives P times — what the code does);
-* the failure side: `theorem C13_two_failure_surfaces_once : Reachable F c0 c → c.allDone → c.s2.exc.isSome →
-  t0.early = false → ∃ e, t0.iterOutcome = some (.err e)` (the inclusion half of that statement IS `C13_two_inclusion`);
+* the failure side is PROVED in round 12 (`C13_two_caller_outcome`, `C13_two_failure_surfaces_once`,
+  `C13_two_stop_means_no_failure`, below) for a failure recorded in the OUTPUT queue (a failing `iterator_fn`, or an
+  error `next(DequeueIterator(Q1))` hands to a second-level task); what is still missing is the link INPUT → OUTPUT:
+  `theorem C13_two_input_failure_reaches_output : Reachable F c0 c → c.allDone → c.s1.exc.isSome → t0.early = false →
+  c.s2.exc.isSome` (needs the same invariant one level down: a second-level task that has seen `StopIteration` of `Q1`
+  ⇒ `Q1` exhausted without failure, under "no upstream stop while `Q2` is clean");
 * the hypotheses of `C13_two_multiset` are on the FINAL configuration (no exception / stop request recorded, `early = false`),
   not derived from the inputs (`no Item.fail`, `F` total on the values, `num_steps = none`);
 * termination: `theorem C13_two_terminates : ∃ bound, every execution from c0 has at most bound steps` (a variant over
@@ -628,5 +633,154 @@ example : ∃ c t0, Reachable (Piter.evalFn .ident none)
   simp only [Prod.mk.injEq, Option.map_eq_some_iff, Option.isNone_iff_eq_none] at hc
   obtain ⟨h1, h2, h3, h4, h5, t0, ht0, h6⟩ := hc
   exact ⟨c, t0, reachable_run _ _ _ hr, h1, h2, h3, h4, h5, ht0, h6⟩
+
+/-! ## Round 12 (package C13D4): a failure of the output queue reaches the caller, exactly as a failure -/
+
+open MlModel.Queue (Raise) in
+/-- **how the caller's iteration ends** (every schedule, every size, any pool, generator or pass-through `iterator_fn`,
+failing inputs and failing `iterator_fn` included): in every reachable configuration in which the caller's iteration
+over the output queue has ended (`cpc` = `shutdown` or `fin`) and was not cut by `num_steps` (`early = false`), the
+caller holds EXACTLY ONE exception `r` out of `next(DequeueIterator(Q2))` (`iterOutcome`, written by the one step that
+leaves the iteration), and
+* `r` is never `queue.Empty` (no internal exception leaks);
+* no stop request was ever made on the output queue;
+* if `r` is a `StopIteration` then the output queue is exhausted and has NO recorded failure — now and in every later
+  configuration (the invariant is over all reachable configurations): by producer counting every second-level task
+  is past its `_stop_enqueue`, so none can fail any more;
+* if `r` is an error then a failure IS recorded in the output queue (the caller never sees an error out of nothing).
+Proof: the invariant `FS` of `Lemmas/Piter2Fail.lean` over all 16 step shapes; `Queue.stepThread_exc` (only
+`maybe_stop`, a failing `next(iterator)` and a timed-out `put` write `_exception` / `_stop_requested`),
+`stepThread_close` (a consumer arms `self.exception or StopIteration(*returned)` as evaluated AFTER `_set_exhausted()`),
+`XOK` (armed ⇒ exhausted), `not_done_by_count`. -/
+theorem C13_two_caller_outcome {cap1 cap2 bm1 bm2 mw : Nat} {ns : Option Nat} {fwd ff : Bool}
+    {inputs : List InSpec} {gens : List Nat} {c : Piter2.Cfg}
+    (h : Reachable F (initF cap1 cap2 bm1 bm2 mw ns fwd ff inputs gens) c)
+    {t0 : Th} (ht0 : c.ths[0]? = some t0) (hearly : t0.early = false)
+    (hend : t0.cpc = .shutdown ∨ t0.cpc = .fin) :
+    c.s2.stopRequested = false ∧
+    ∃ r, t0.iterOutcome = some r ∧ r ≠ Raise.empty ∧
+      (∀ rets, r = Raise.stop rets → c.s2.exc = none ∧ c.s2.exhausted = true) ∧
+      (∀ e, r = Raise.err e → c.s2.exc.isSome = true) := by
+  have f := fs_reachable (good_initF cap1 cap2 bm1 bm2 mw ns fwd ff inputs gens)
+    (fs_init cap1 cap2 bm1 bm2 mw ns fwd ff inputs gens) h t0 ht0 hearly
+  obtain ⟨r, hr, ho⟩ := f.out hend
+  exact ⟨f.nostop, r, hr, ho.1, fun rets e => ho.2.1 (by rw [e]; rfl), fun e' e => ho.2.2 (by rw [e]; rfl)⟩
+
+open MlModel.Queue (Raise) in
+/-- **a failure of the output queue surfaces, once, as a failure** (every schedule, every size; the second half of
+C13's "fails ⇒ the failure is observed"): in a reachable FINAL configuration (caller past `shutdown()`, every task of
+both levels at its end — under `PoolOK` exactly the configurations without enabled step, `C13_two_no_deadlock`) whose
+output queue has a recorded exception — `iterator_fn` raised on some value, or `next(DequeueIterator(Q1))` raised in a
+second-level task — and whose caller was not cut by `num_steps`, the caller's iteration ended with an ERROR: never
+with a clean `StopIteration`, never with `queue.Empty`; and it ended once (`iterOutcome` is the single exception that
+left the `for` loop). -/
+theorem C13_two_failure_surfaces_once {cap1 cap2 bm1 bm2 mw : Nat} {ns : Option Nat} {fwd ff : Bool}
+    {inputs : List InSpec} {gens : List Nat} {c : Piter2.Cfg}
+    (h : Reachable F (initF cap1 cap2 bm1 bm2 mw ns fwd ff inputs gens) c) (hdone : c.allDone = true)
+    {t0 : Th} (ht0 : c.ths[0]? = some t0) (hearly : t0.early = false) (hexc : c.s2.exc.isSome = true) :
+    ∃ e, t0.iterOutcome = some (Raise.err e) := by
+  have g := good_reachable (good_initF cap1 cap2 bm1 bm2 mw ns fwd ff inputs gens) h
+  have hfin : t0.cpc = .fin := by
+    unfold Piter2.Cfg.allDone at hdone
+    rw [List.all_eq_true] at hdone
+    have := hdone t0 (List.mem_of_getElem? ht0)
+    simpa [Th.done, (g.inv.role0 0 t0 ht0).mpr rfl] using this
+  obtain ⟨-, r, hr, hne, hstop, -⟩ := C13_two_caller_outcome h ht0 hearly (.inr hfin)
+  cases r with
+  | empty => exact absurd rfl hne
+  | stop rets =>
+    have := (hstop rets rfl).1
+    rw [this] at hexc; cases hexc
+  | err e => exact ⟨e, hr⟩
+
+open MlModel.Queue (Raise) in
+/-- the converse reading, for EVERY reachable configuration (not only final ones): once the caller has left its
+iteration with a clean `StopIteration` (not its own early stop), the output queue has no recorded exception — a
+second-level task cannot fail "behind the caller's back" after the end of the stream was delivered. -/
+theorem C13_two_stop_means_no_failure {cap1 cap2 bm1 bm2 mw : Nat} {ns : Option Nat} {fwd ff : Bool}
+    {inputs : List InSpec} {gens : List Nat} {c : Piter2.Cfg}
+    (h : Reachable F (initF cap1 cap2 bm1 bm2 mw ns fwd ff inputs gens) c)
+    {t0 : Th} (ht0 : c.ths[0]? = some t0) (hearly : t0.early = false)
+    (hend : t0.cpc = .shutdown ∨ t0.cpc = .fin) {rets : List Nat} (hout : t0.iterOutcome = some (Raise.stop rets)) :
+    c.s2.exc = none ∧ c.s2.stopRequested = false ∧ c.s2.exhausted = true := by
+  obtain ⟨hns, r, hr, -, hstop, -⟩ := C13_two_caller_outcome h ht0 hearly hend
+  rw [hout] at hr
+  obtain rfl := Option.some.inj hr
+  exact ⟨(hstop rets rfl).1, hns, (hstop rets rfl).2⟩
+
+/-- test (by `decide`), non-vacuity of `C13_two_failure_surfaces_once`, failing `iterator_fn`: two inputs, `iterator_fn`
+raises on the value 2; a complete run (110 steps) ends in a final configuration with `Q2._exception` set, no early
+stop, and the caller holding the error -/
+example : ∃ c t0, Reachable (fun v => if v = 2 then none else some [v])
+      (initF 1 1 1 2 3 none false true [⟨[.val 1], 900, []⟩, ⟨[.val 2], 901, []⟩] [800]) c ∧
+      c.allDone = true ∧ c.ths[0]? = some t0 ∧ t0.early = false ∧ c.s2.exc.isSome = true ∧ c.s1.exc = none := by
+  have h : ((run (fun v => if v = 2 then none else some [v])
+      (initF 1 1 1 2 3 none false true [⟨[.val 1], 900, []⟩, ⟨[.val 2], 901, []⟩] [800])
+      (List.replicate 2 0 ++ List.replicate 17 1 ++ [0] ++ List.replicate 7 2 ++ [0] ++ List.replicate 31 3 ++
+        List.replicate 8 2 ++ List.replicate 30 3 ++ List.replicate 2 2 ++ List.replicate 11 0)).map fun c =>
+          (c.allDone, c.ths[0]?.map (·.early), c.s2.exc.isSome, c.s1.exc.isNone)) =
+      some (true, some false, true, true) := by decide +kernel
+  obtain ⟨c, hr, hc⟩ := Option.map_eq_some_iff.mp h
+  simp only [Prod.mk.injEq, Option.map_eq_some_iff, Option.isNone_iff_eq_none] at hc
+  obtain ⟨h1, ⟨t0, ht0, h2⟩, h3, h4⟩ := hc
+  exact ⟨c, t0, reachable_run _ _ _ hr, h1, ht0, h2, h3, h4⟩
+
+/-- test (by `decide`), non-vacuity, failing INPUT: the first input iterator raises; the error travels through the
+input queue to the second-level task and from there into the output queue (61 steps) -/
+example : ∃ c t0, Reachable (Piter.evalFn .ident none)
+      (initF 1 1 1 2 3 none false true [⟨[.fail], 900, []⟩, ⟨[.val 2], 901, []⟩] [800]) c ∧
+      c.allDone = true ∧ c.ths[0]? = some t0 ∧ t0.early = false ∧ c.s2.exc.isSome = true ∧ c.s1.exc.isSome = true := by
+  have h : ((run (Piter.evalFn .ident none)
+      (initF 1 1 1 2 3 none false true [⟨[.fail], 900, []⟩, ⟨[.val 2], 901, []⟩] [800])
+      (List.replicate 2 0 ++ List.replicate 16 1 ++ [0] ++ List.replicate 3 2 ++ [0] ++ List.replicate 31 3 ++
+        List.replicate 7 0)).map fun c =>
+          (c.allDone, c.ths[0]?.map (·.early), c.s2.exc.isSome, c.s1.exc.isSome)) =
+      some (true, some false, true, true) := by decide +kernel
+  obtain ⟨c, hr, hc⟩ := Option.map_eq_some_iff.mp h
+  simp only [Prod.mk.injEq, Option.map_eq_some_iff] at hc
+  obtain ⟨h1, ⟨t0, ht0, h2⟩, h3, h4⟩ := hc
+  exact ⟨c, t0, reachable_run _ _ _ hr, h1, ht0, h2, h3, h4⟩
+
+/-- **without `num_steps` the caller never stops early and the output queue is never stopped** (every schedule,
+every size, failures included) — the first of the clean-run hypotheses of `C13_two_multiset` DERIVED FROM THE INPUTS:
+for `num_steps = None`, in every reachable configuration the caller's `early` flag is unset and no stop request was
+made on the output queue (only `DequeueIterator.__next__` reaching `num_steps` calls `Q2.maybe_stop()`). -/
+theorem C13_two_no_early_stop {cap1 cap2 bm1 bm2 mw : Nat} {fwd ff : Bool}
+    {inputs : List InSpec} {gens : List Nat} {c : Piter2.Cfg}
+    (h : Reachable F (initF cap1 cap2 bm1 bm2 mw none fwd ff inputs gens) c)
+    {t0 : Th} (ht0 : c.ths[0]? = some t0) : t0.early = false ∧ c.s2.stopRequested = false := by
+  have he := early_reachable h t0 ht0
+  exact ⟨he, (fs_reachable (good_initF cap1 cap2 bm1 bm2 mw none fwd ff inputs gens)
+    (fs_init cap1 cap2 bm1 bm2 mw none fwd ff inputs gens) h t0 ht0 he).nostop⟩
+
+/-- `C13_two_multiset` for `num_steps = None` with two of its hypotheses discharged (`early = false`, no stop request on
+the output queue): in a reachable final configuration in which no exception is recorded in either queue and the input
+queue was not stopped, the delivered values are a permutation of `iterator_fn` over all input values.
+Still `_partial` with respect to "for clean inputs": `Q1._exception = Q2._exception = None` and "no upstream stop" are
+hypotheses on the final configuration, not yet derived from `no Item.fail` / `F` total on the input values (the
+failure theorems above give the other direction: a recorded `Q2` failure always surfaces). -/
+theorem C13_two_multiset_no_num_steps_partial {cap1 cap2 bm1 bm2 mw : Nat} {fwd ff : Bool}
+    {inputs : List InSpec} {gens : List Nat} {c : Piter2.Cfg} (hgen : gens ≠ [])
+    (h : Reachable F (initF cap1 cap2 bm1 bm2 mw none fwd ff inputs gens) c) (hdone : c.allDone = true)
+    (hexc1 : c.s1.exc = none) (hstop1 : c.s1.stopRequested = false) (hexc2 : c.s2.exc = none)
+    {t0 : Th} (ht0 : c.ths[0]? = some t0) :
+    List.Perm (t0.b.received.map (·.2)) ((inputs.flatMap fun i => valsOf i.items).flatMap (Fp F)) ∧
+    (∃ rets, t0.iterOutcome = some (Queue.Raise.stop rets)) := by
+  obtain ⟨he, hs2⟩ := C13_two_no_early_stop h ht0
+  refine ⟨(C13_two_multiset hgen h hdone hexc1 hstop1 hexc2 hs2 ht0 he).1, ?_⟩
+  have g := good_reachable (good_initF cap1 cap2 bm1 bm2 mw none fwd ff inputs gens) h
+  have hfin : t0.cpc = .fin := by
+    unfold Piter2.Cfg.allDone at hdone
+    rw [List.all_eq_true] at hdone
+    have := hdone t0 (List.mem_of_getElem? ht0)
+    simpa [Th.done, (g.inv.role0 0 t0 ht0).mpr rfl] using this
+  obtain ⟨-, r, hr, hne, -, herr⟩ := C13_two_caller_outcome h ht0 he (.inr hfin)
+  cases r with
+  | empty => exact absurd rfl hne
+  | stop rets => exact ⟨rets, hr⟩
+  | err e =>
+    -- an error in the caller's hand means `Q2._exception` is set
+    have := herr e rfl
+    rw [hexc2] at this; cases this
 
 end MlModel.C13
